@@ -26,20 +26,22 @@ CONFIGS = [
     Config(PROP, V, C, ' keep-sorted="desc" keep-sorted-pattern="[ab]+"', 'plain', 'desc', [97, 98]),
     Config(PROP, V, C, ' keep-sorted keep-sorted-pattern="z(?P<value>[ab]+)?"', 'group-optional', 'asc', [97, 98]),
     Config(PROP, V, C, ' keep-sorted keep-sorted-pattern="k=(?P<value>[ab]*)"', 'group-empty', 'asc', [97, 98]),
+    Config(PROP, V, C, ' keep-sorted="desc" keep-sorted-pattern="(?P<value>[ab]*)"', 'bare-empty', 'desc', [97, 98]),
 ]
 SPECS = [(0, 1, 0), (1, 2, 0), (0, 2, 1), (1, 0, 0), (0, 0, 0)]
 NUM_SPECS = [(0, 1, 0), (1, 2, 0), (0, 3, 1), (1, 0, 0)]
+BARE_SPECS = [(0, 1, 1), (0, 0, 1), (0, 2, 0), (0, 0, 2), (0, 0, 0)]
 BOUNDS = {'quick': dict(nlines=3, per_cfg=36, validate=30), 'thorough': dict(nlines=5, per_cfg=600, validate=150)}
 
 
 def main(tier):
-    return run_main(PROP, tier, CONFIGS, lambda c: NUM_SPECS if c.numeric else SPECS, BOUNDS,
+    return run_main(PROP, tier, CONFIGS, lambda c: NUM_SPECS if c.numeric else (BARE_SPECS if c.mode == 'bare-empty' else SPECS), BOUNDS,
                     assumptions=['keys over {a,b,B,1} with inner blanks (trim form), {a,b} for the regex forms k=(?P<value>[ab]+), k=(?P<value>[ab]*) (a key may be the empty string), z(?P<value>[ab]+)? and [ab]+',
                                  'numeric keys are integer literals -?[0129]{1,3} (exactly representable); decimals, exponents, inf/nan are outside',
                                  'the regex engine is the reference model mirsym/rexmodel.py, not the regex crate',
                                  'tree-sitter / tag scanner replaced as in C10; ASCII only',
                                  'is_content_modified and _is_start_tag_modified are free booleans: the verdict must not depend on them (C02)'],
-                    must_cover=['clean', 'reported', 'two violating blocks in one file', 'numeric', 'mode:trim', 'mode:group', 'mode:plain', 'mode:group-empty', 'rule:asc', 'rule:desc'])
+                    must_cover=['clean', 'reported', 'two violating blocks in one file', 'numeric', 'mode:trim', 'mode:group', 'mode:plain', 'mode:group-empty', 'mode:bare-empty', 'rule:asc', 'rule:desc'])
 
 
 if __name__ == '__main__':
